@@ -76,9 +76,72 @@ Print Assumptions measure_table.
 
 Theorem measure_maps_spec : forall cp t s e n, keys_incr (meas_tbl cp) ->
   in_force (meas_tbl cp) t (s, e, n) ->
-  measure_map cp t = Some (s, e) /\ measure_number_map cp t = Some n.
+  measure_map cp t = Some (s, e) /\ measure_number_map cp t = n.
 Proof. exact Proofs.C10.measure_maps_spec. Qed.
 Print Assumptions measure_maps_spec.
+
+(* the length the pickup is extended to: the rounded full bar, exactly when the first measure is shorter *)
+Theorem pickup_length : forall cp len,
+  pickup_len cp = Some len <->
+  exists s0 x e0 n0 r fb, c_meas cp = (s0, (x, e0, n0)) :: r /\ full_bar cp s0 = Some fb /\
+    (inject_Z (e0 - s0) < fb)%Q /\ len = round_half_even fb.
+Proof. exact Proofs.C10.pickup_len_cases. Qed.
+Print Assumptions pickup_length.
+
+(* well-formed (each measure non-empty, keyed by its start, none starting before the previous one ends) and
+   contiguous lists stay so under the pickup correction *)
+Theorem measure_table_wf : forall cp,
+  (meas_wf (c_meas cp) -> meas_wf (meas_tbl cp)) /\ (meas_contig (c_meas cp) -> meas_contig (meas_tbl cp)).
+Proof. exact (fun cp => conj (meas_tbl_wf cp) (meas_tbl_contig cp)). Qed.
+Print Assumptions measure_table_wf.
+
+(* the measure CONTAINING t: its extent and its number *)
+Theorem measure_containing : forall cp t k s e n, meas_wf (meas_tbl cp) ->
+  In (k, (s, e, n)) (meas_tbl cp) -> s <= t < e ->
+  measure_map cp t = Some (s, e) /\ measure_number_map cp t = n.
+Proof. exact Proofs.C10.measure_containing. Qed.
+Print Assumptions measure_containing.
+
+(* ... and the distance of t from its start together with its length (two or more contiguous measures) *)
+Theorem metpos_containing : forall cp t k s e n m1 m2 r, meas_tbl cp = m1 :: m2 :: r ->
+  meas_wf (meas_tbl cp) -> meas_contig (meas_tbl cp) ->
+  In (k, (s, e, n)) (meas_tbl cp) -> s <= t < e ->
+  metpos cp t = (t - s, e - s).
+Proof. exact Proofs.C10.metpos_containing. Qed.
+Print Assumptions metpos_containing.
+
+(* the statement on the measures AS WRITTEN.  A measure after the first: its own extent and number, position
+   counted from its own start, whatever happened to the first measure *)
+Theorem later_measure_spec : forall cp t m0 r k s e n, c_meas cp = m0 :: r -> meas_wf (c_meas cp) ->
+  In (k, (s, e, n)) r -> s <= t < e ->
+  measure_map cp t = Some (s, e) /\ measure_number_map cp t = n /\
+  (meas_contig (c_meas cp) -> metpos cp t = (t - s, e - s)).
+Proof. exact Proofs.C10.later_measure_spec. Qed.
+Print Assumptions later_measure_spec.
+
+(* the first measure: as written unless it is shorter than a full bar; a pickup is treated as ending a full
+   bar: it starts len = round(beats * divisions per beat) before its end, which is at or before its written start *)
+Theorem first_measure_spec : forall cp t s0 e0 n0 r, c_meas cp = (s0, (s0, e0, n0)) :: r -> meas_wf (c_meas cp) ->
+  s0 <= t < e0 ->
+  (pickup_len cp = None ->
+     measure_map cp t = Some (s0, e0) /\ measure_number_map cp t = n0 /\
+     (r <> [] -> meas_contig (c_meas cp) -> metpos cp t = (t - s0, e0 - s0))) /\
+  (forall len, pickup_len cp = Some len ->
+     e0 - s0 <= len /\
+     measure_map cp t = Some (e0 - len, e0) /\ measure_number_map cp t = n0 /\
+     (r <> [] -> meas_contig (c_meas cp) -> metpos cp t = (t - (e0 - len), len))).
+Proof. exact Proofs.C10.first_measure_spec. Qed.
+Print Assumptions first_measure_spec.
+
+(* measure numbers as the map uses them: a numbered measure (0, negative, repeated numbers included) keeps its
+   number; an un-numbered one takes the number as written of the measure before it *)
+Theorem measure_numbers_spec : forall l i,
+  List.length (eff_nums l) = List.length l /\
+  (forall n, nth_error l i = Some (Some n) -> nth_error (eff_nums l) i = Some (Some n)) /\
+  (forall j y, i = S j -> nth_error l i = Some None -> nth_error l j = Some y ->
+     nth_error (eff_nums l) i = Some y).
+Proof. exact Proofs.C10.measure_numbers_spec. Qed.
+Print Assumptions measure_numbers_spec.
 
 (* metrical position = (distance from the barline in force, distance to the next barline) *)
 Theorem metpos_spec : forall cp t b d m1 m2 r, meas_tbl cp = m1 :: m2 :: r ->
@@ -103,6 +166,19 @@ Theorem metpos_single_measure_refuted :
 Proof. exact Proofs.C10.metpos_single_measure_refuted. Qed.
 Print Assumptions metpos_single_measure_refuted.
 
+(* --- O3 the optional note-array / rest-array columns are the map values at the onset; is_downbeat = 1 exactly
+   at position 0 of the bar *)
+Theorem na_columns_spec : forall cp t,
+  na_ts cp t = ts_map cp t /\ na_ks cp t = ks_map cp t /\
+  (let '(down, pos, len) := na_metrical cp t in (pos, len) = metpos cp t /\ (down = 1 <-> pos = 0) /\ (down = 0 \/ down = 1)).
+Proof. exact Proofs.C10.na_columns_spec. Qed.
+Print Assumptions na_columns_spec.
+
+(* a table with a single element is constant (interp1d's single-sample branch) *)
+Theorem lookup_single : forall (A : Type) first (t0 : Z) (v0 d : A) t, lookup_bf first [(t0, v0)] d t = v0.
+Proof. exact @Proofs.C10.lookup_single. Qed.
+Print Assumptions lookup_single.
+
 (* --- codes (tables regenerated from the source on every run) *)
 Theorem impl_mode_codes : forall sp, 0 <= sp <= 5 ->
   In (sp, Some (mode_code sp), Some (mode_name (mode_code sp))) tab_mode.
@@ -116,9 +192,22 @@ Print Assumptions impl_clef_codes.
 
 (* --- a worked part: pickup of one quarter in 4/4, two key signatures, a clef change, a staff without clef *)
 Theorem example_part :
-  measure_map ex10 2 = Some (-12, 4) /\ measure_number_map ex10 2 = Some 1 /\ metpos ex10 2 = (14, 16) /\
+  measure_map ex10 2 = Some (-12, 4) /\ measure_number_map ex10 2 = Some 0 /\ metpos ex10 2 = (14, 16) /\
   measure_map ex10 25 = Some (20, 36) /\ metpos ex10 25 = (5, 16) /\
   ts_map ex10 25 = (4, 4, 4) /\ ks_map ex10 19 = (-3, -1) /\ ks_map ex10 20 = (2, 1) /\
   clef_map ex10 25 = [(1, 1, 4, 0); (2, 6, 0, 0)].
 Proof. exact Proofs.C10.ex10_values. Qed.
 Print Assumptions example_part.
+
+(* the hypotheses of the measure theorems hold for it (pickup extended to 16 divisions; numbers 0, 1, 1) *)
+Theorem example_part_hyps :
+  meas_wf (c_meas ex10) /\ meas_contig (c_meas ex10) /\ pickup_len ex10 = Some 16 /\
+  measure_number_map ex10 25 = Some 1 /\ measure_number_map ex10 0 = Some 0.
+Proof. exact Proofs.C10.ex10_hyps. Qed.
+Print Assumptions example_part_hyps.
+
+Theorem measure_numbers_example :
+  eff_nums [Some 0; None; Some 7; None; None] = [Some 0; Some 0; Some 7; Some 7; None] /\
+  eff_nums [None; Some 3; Some (-2)] = [Some (-2); Some 3; Some (-2)].
+Proof. exact Proofs.C10.eff_nums_example. Qed.
+Print Assumptions measure_numbers_example.
